@@ -77,6 +77,18 @@ def request_sweep(job):
                 try:
                     c2.request_workflow_status(req)
                     cnt("sweep.accepted")
+                    # terminal is final: a request on a failed / canceled / succeeded workflow that is NOT refused (the
+                    # same status again) must not change anything either (succeeded -> failed is the documented exception)
+                    if before["status"] in ("failed", "canceled", "succeeded") and not (before["status"] == "succeeded" and req == "failed"):
+                        cnt("sweep.accepted_on_terminal")
+                        after = snap(c2)
+                        if canon(after) != canon(before):
+                            viols.append(dict(prop="C04", kind="accepted_request_changed_terminal_state", subject=req, cause=None,
+                                              detail="request %r on a %s workflow raised nothing and changed the persisted state "
+                                              "(task statuses %r -> %r)" % (req, before["status"],
+                                                                           [r.get("status") for r in before["state"]["sequence"]],
+                                                                           [r.get("status") for r in after["state"]["sequence"]]),
+                                              step=run.step))
                     continue
                 except Exception as e:
                     # any error is a rejection (InvalidWorkflowStatusTransition for forbidden transitions,
@@ -95,7 +107,17 @@ def request_sweep(job):
                                          [r.get("status") for r in before["state"]["sequence"]],
                                          [r.get("status") for r in after["state"]["sequence"]]), step=run.step))
 
-        explore.run_free(run, explore.Policy(pseed=h64(seed, "p"), lazy_pct=50), hook=sweep)
+        # every third history has pause / cancel / resume requests of its own, so that transitional and canceled states
+        # (with late acknowledgements and reports) are among the states swept
+        inj = workloads.Injector(h64(seed, "inj"), dict(req=0.12, max_req=3, reqs=["pausing", "canceling", "resuming", "canceled", "paused"])) \
+            if seed % 3 == 2 else None
+
+        def hook(r, phase):
+            if inj is not None:
+                inj(r, phase)
+            sweep(r, phase)
+
+        explore.run_free(run, explore.Policy(pseed=h64(seed, "p"), lazy_pct=50), hook=hook)
         sweep(run, "after_done")
         out["evaluations"] += 1
         cnt("histories")
